@@ -201,11 +201,20 @@ CLAIMED.update({
 
 PENDING = {}
 
-NOT_APPLICABLE = {
-    "C16": "which source location feeds a target location is decided inside compiled scipy kernels (KDTree, Qhull/"
-           "LinearNDInterpolator, RegularGridInterpolator) that no available engine can execute symbolically; "
-           "with them stubbed nothing of the property remains (DESIGN.md section 4, C16)",
-}
+NOT_APPLICABLE = {}
+
+CLAIMED["C16"] = (
+    "symbolic payload values through the real RegridNearest adapter over an engine-directed case split of concrete "
+    "grid pairs (symx + z3); linear regridding NOT covered",
+    "PARTIAL: only the nearest-neighbour half. Geometry is concrete (scipy's compiled KDTree decides the source index), "
+    "payload values are symbolic: for every combination of source/target grid kind (uniform in all layouts and orders, "
+    "unstructured cells, unstructured points), data location and source/target masks on small 1-3-D geometries, z3 "
+    "refutes 'delivered value at an unmasked target location is not the value of a Euclidean-nearest unmasked source "
+    "location' for all values, masked target cells stay masked, and regridding between layouts of the same geometry is "
+    "the identity. The linear half of the property (RegularGridInterpolator / LinearNDInterpolator on float arrays, "
+    "affine exactness, convex-hull masking, fill_with_nearest) cannot be executed symbolically and is not claimed.",
+    "DESIGN.md section 4, C16 and section 8",
+    "partial claim: linear regridding not applicable to the technique")
 
 
 def main():
